@@ -47,6 +47,11 @@ type Shape struct {
 	// NewWriter: page <= 0 means "do not pass MaxPageSize"; codec
 	// CodecDefault means "pass no codec option".
 	NewWriter func(w io.Writer, page int, codec int) (W, error)
+	// NewWriterShared: as NewWriter, but every call with the same (page, codec)
+	// passes the SAME option slice (built once per process, with spare capacity)
+	// to the constructor: option lists are caller-owned memory that separate
+	// instances legitimately share.
+	NewWriterShared func(w io.Writer, page int, codec int) (W, error)
 	NewReader func(r io.ReadSeeker) (R, error)
 	// Meta is free-form glue-provided data (e.g. base shape for C14).
 	Meta map[string]string
